@@ -46,6 +46,21 @@ Proof. exact sort_refines. Qed.
 Theorem C09_sort_permutes : forall l, Permutation.Permutation l (sort_elems l).
 Proof. exact sort_elems_perm. Qed.
 
+(** sorting with a comparator on which elements tie (slice::sort_by through DerefMut is std's stable
+    sort): the model's insertion sort by a key is a permutation, sorted by the key, and stable -- the
+    elements of any one key keep their relative order -- and the view refines it *)
+Theorem C09_sort_by_key : forall leb p buf cap xs pad rest, Rep p buf cap xs pad rest ->
+  exists buf', sort_with leb p buf = (buf', Ok tt) /\ Rep p buf' cap (sort_by leb xs) pad rest.
+Proof. exact sort_with_refines. Qed.
+Theorem C09_sort_by_key_permutes : forall leb l, Permutation.Permutation l (sort_by leb l).
+Proof. exact sort_by_perm. Qed.
+Theorem C09_sort_by_key_stable : forall (key : list byte -> N) l k,
+  filter (fun z => key z =? k) (sort_by (fun a b => key a <=? key b) l) = filter (fun z => key z =? k) l.
+Proof. exact sort_by_stable. Qed.
+Theorem C09_sort_by_key_sorted : forall (key : list byte -> N) l,
+  Sorted.StronglySorted (fun a b => key a <= key b) (sort_by (fun a b => key a <=? key b) l).
+Proof. exact sort_by_sorted. Qed.
+
 Theorem C09_init : forall p buf, wf_params p -> layout_ok p buf -> capacity_of p buf < USIZE_LIMIT ->
   exists buf' pad rest, init p buf = (buf', Ok (0, capacity_of p buf)) /\
                         Rep p buf' (capacity_of p buf) [] pad rest /\ length buf' = length buf.
